@@ -439,7 +439,47 @@ def build_plan(tier):
             for i, v in zip(ref, o): h2c[hcases[i]] = v
     return {"tier": tier, "E": E, "einfo": [(c, v, p is not None) for c, v, p in einfo], "ecols": ecols, "addsub": addsub, "smul": smul, "base": base,
             "S": S, "S64": S64, "R": R, "rcls": rcls, "rcols": rcols, "raddsub": raddsub, "rsmul": rsmul, "U32": U32, "u32": u32, "U64": U64, "u64": u64,
-            "ctxs": ctxs, "msgs": msgs, "h2c": h2c, "coset_checks": coset_checks}
+            "ctxs": ctxs, "msgs": msgs, "h2c": h2c, "coset_checks": coset_checks, "struct": structured_point_outputs()}
+
+
+def structured_point_outputs():
+    """(kind, scalar, point_encoding, expected_encoding): inputs built BACKWARDS so that the RESULT of the scalar multiplication is a
+    near-identity / near-zero encoding (identity + one byte, one non-zero byte at every position, ...). The identity tests on the result
+    (crypto_scalarmult_ed25519: 01 00..00; ristretto255: all-zero) must not mistake these valid results for the identity."""
+    import ec25519 as ec
+    out = []
+    scal = pat("R1", 32, 77)
+    n_clamped = ec.clamp(scal); n_raw = int.from_bytes(scal, "little") & ((1 << 255) - 1)
+    inv_c, inv_r = pow(n_clamped, -1, L), pow(n_raw % L, -1, L)
+    # Edwards: target y = 1 + k*256^j (the identity is y = 1) and y = k*256^j
+    seen = {}
+    for j in range(32):
+        for k in (1, 2, 3, 5, 7, 0x10, 0x80, 0xfe):
+            for base in (1, 0):
+                y = (base + (k << (8 * j))) % (1 << 255)
+                if y >= P or seen.get((j, base), 0) >= 1: continue
+                for sign in (0, 1):
+                    enc = le(y | (sign << 255))
+                    pt = ec.point_decode(enc, allow_noncanonical=False)
+                    if pt is None or not ec.in_prime_subgroup(pt) or ec.is_identity(pt): continue
+                    seen[(j, base)] = seen.get((j, base), 0) + 1
+                    out.append(("ed25519", scal, ec.point_encode(ec.scalar_mult(inv_c, pt)), enc))
+                    out.append(("ed25519_noclamp", scal, ec.point_encode(ec.scalar_mult(inv_r, pt)), enc))
+                    break
+    # Ristretto: target encoding s = k*256^j (all-zero is the identity)
+    seen = {}
+    for j in range(32):
+        for k in (2, 4, 6, 8, 0x10, 0x80, 0xfe, 1, 3):
+            s_ = (k << (8 * j)) % (1 << 255)
+            if s_ == 0 or s_ >= P or seen.get(j, 0) >= 1: continue
+            enc = le(s_)
+            pt = ec.ristretto_decode(enc)
+            if pt is None: continue
+            seen[j] = 1
+            src = ec.ristretto_encode(ec.ristretto_scalar_mult(inv_r, pt))
+            if ec.ristretto_encode(ec.ristretto_scalar_mult(n_raw % L, ec.ristretto_decode(src))) != enc: continue
+            out.append(("ristretto255", scal, src, enc))
+    return out
 
 
 # ---------------------------------------------------------------- one (variant, cfg) = one spawned process
@@ -704,6 +744,13 @@ def _backend_worker(args):
                         why = "; the output %s what RFC 9380 gives when b_1.. are computed with DST = b_0 instead of H(\"H2C-OVERSIZE-DST-\"||ctx)" % ("EQUALS" if emu == got else "does not equal")
                     fail(fname, "%s/%s" % (hn, clabel), rest, "ret %d got %s want %s (%s, DST = %d context bytes); output is %s%s" %
                          (r, got.hex(), want.hex(), ("encode_to_curve", "hash_to_curve", "hash_to_ristretto255", "hash_to_ristretto255")[fi], len(dst), member, why))
+    # ---- structured results: near-identity outputs must be returned, not reported as the identity
+    for kind, n_, src, want in plan.get("struct", []):
+        f = {"ed25519": lib.crypto_scalarmult_ed25519, "ed25519_noclamp": lib.crypto_scalarmult_ed25519_noclamp, "ristretto255": lib.crypto_scalarmult_ristretto255}[kind]
+        r = f(q, n_, src); st["n"] += 1; st["nt"] += 1
+        if r != 0 or q.raw != want:
+            fail("crypto_scalarmult_%s" % kind, "structured-result", "n=%s/p=%s/class=structured-result" % (n_.hex(), src.hex()),
+                 "ret %d got %s, the exact result is the valid non-identity element %s" % (r, q.raw.hex(), want.hex()))
     return tag, feats, st["n"], st["nt"], fails, totals, info
 
 
@@ -762,7 +809,7 @@ def main(tier):
            "addsub_columns": len(plan["ecols"]), "ristretto_addsub_columns": len(plan["rcols"]),
            "uniform32_inputs": len(plan["U32"]), "uniform64_inputs": len(plan["U64"]),
            "contexts": len(plan["ctxs"]), "messages": len(plan["msgs"]), "h2c_cases_per_variant": 4 * 2 * len(plan["ctxs"]) * len(plan["msgs"]),
-           "model_coset_identities_checked": plan["coset_checks"], "edwards_classes": ecls, "ristretto_classes": rc,
+           "model_coset_identities_checked": plan["coset_checks"], "structured_result_cases": len(plan["struct"]), "edwards_classes": ecls, "ristretto_classes": rc,
            "failing_cases_by_function_and_input_class": fam, "reference_seconds": round(t_ref, 1), "backends": tags,
            "distinct_nontrivial_definition": "cases (function, inputs, variant) for which the model predicts acceptance / a value (not a refusal)"}
     common.finish("C07", tier, "exploration", res, cov,
